@@ -703,8 +703,12 @@ fn run_sys_case(a: &Args, i: u64) -> SysOutcome {
                 let mut w;
                 loop {
                     w = wal_where(&root, n);
-                    if w.len() >= accepted.len() || t0.elapsed().as_millis() > 4000 {
+                    if w.len() >= accepted.len() {
                         break;
+                    }
+                    if t0.elapsed().as_millis() > 20000 {
+                        out.infra = Some(format!("WAL did not drain within 20 s ({} of {} lines)", w.len(), accepted.len()));
+                        return out;
                     }
                     std::thread::sleep(std::time::Duration::from_millis(5));
                 }
@@ -742,7 +746,11 @@ fn run_sys_case(a: &Args, i: u64) -> SysOutcome {
                 if *kill && !flushed {
                     // process kill once the WAL holds everything that was acknowledged
                     let t0 = std::time::Instant::now();
-                    while wal_where(&root, n).len() < accepted.len() && t0.elapsed().as_millis() < 4000 {
+                    while wal_where(&root, n).len() < accepted.len() {
+                        if t0.elapsed().as_millis() > 20000 {
+                            out.infra = Some("WAL did not drain within 20 s before the kill".into());
+                            return out;
+                        }
                         std::thread::sleep(std::time::Duration::from_millis(5));
                     }
                     sess.kill();
@@ -783,6 +791,351 @@ fn run_sys_case(a: &Args, i: u64) -> SysOutcome {
         let _ = std::fs::remove_dir_all(&root);
     }
     out
+}
+
+
+// ------------------------------------------------------------------------------ clock stream
+
+const EPOCH: u64 = 1_609_459_200_000;
+
+/// (key, shard, context, event_id) for every WAL line under the shards' WAL directories.
+fn wal_rows(root: &Path, n: usize) -> Vec<(u64, u64, String, u64)> {
+    let mut out = vec![];
+    for sh in 0..n {
+        let d = root.join("wal").join(format!("shard-{sh}"));
+        let Ok(rd) = std::fs::read_dir(&d) else { continue };
+        for e in rd.flatten() {
+            let name = e.file_name().to_string_lossy().to_string();
+            if !(name.starts_with("wal-") && name.ends_with(".log")) {
+                continue;
+            }
+            let Ok(text) = std::fs::read_to_string(e.path()) else { continue };
+            for line in text.lines() {
+                let Ok(v) = serde_json::from_str::<Value>(line) else { continue };
+                let k = v.pointer("/payload/k").and_then(|x| x.as_u64());
+                let c = v.get("context_id").and_then(|x| x.as_str());
+                let id = v.get("event_id").and_then(|x| x.as_u64());
+                if let (Some(k), Some(c), Some(id)) = (k, c, id) {
+                    out.push((k, sh as u64, c.to_string(), id));
+                }
+            }
+        }
+    }
+    out
+}
+
+/// Histories under a scripted id clock (hook `verif::set_id_clock`, one reading per STORE):
+/// ids are then determined, so the model's ids are compared exactly. Restarts are process
+/// kills after the WAL drained; the clock after a restart may be later, repeat, or step back.
+fn run_clock_case(a: &Args, i: u64) -> SysOutcome {
+    let mut r = Rng::for_case(a.seed, "clock", i);
+    let n = match r.below(6) {
+        0 => 1,
+        1 => 2,
+        2 => 8,
+        _ => 1 + r.below(4) as usize,
+    };
+    let nctx = 1 + r.below(3) as usize;
+    let mut ctxs: Vec<String> = vec![];
+    for _ in 0..nctx {
+        let c = match r.below(4) {
+            0 => format!("c{}", r.below(100)),
+            1 => format!("Acct-{}", r.below(20)),
+            2 => format!("acct-{} ", r.below(20)),
+            _ => format!("é{}", r.below(50)),
+        };
+        if !ctxs.contains(&c) {
+            ctxs.push(c);
+        }
+    }
+    let nctx = ctxs.len();
+    let root = a.out.join(format!("clock-case-{i}"));
+    let _ = std::fs::remove_dir_all(&root);
+    let cfg = SysCfg { shards: n, event_per_zone: 50, fill_factor: 4, ..Default::default() };
+    let mut out = SysOutcome { op: String::new(), imp: String::new(), fails: vec![], infra: None, tallies: vec![], stores_ok: 0 };
+    let mut sess = Session::start(&root, &cfg);
+    if sess.dead {
+        out.infra = Some("engine child did not start".into());
+        return out;
+    }
+    match sess.cmd("DEFINE ev FIELDS { k: \"int\" }") {
+        Some(rep) if rep.ok() => {}
+        other => {
+            out.infra = Some(format!("DEFINE failed: {other:?}"));
+            return out;
+        }
+    }
+    let mut optoks: Vec<String> = vec![format!("sysclk {n}")];
+    let mut imps: Vec<String> = vec![];
+    let mut accepted: Vec<(usize, u64, usize)> = vec![]; // (ctx, key, lifetime)
+    let lifetimes = 2 + r.below(2) as usize;
+    let mut key = 0u64;
+    let mut t = EPOCH + 10_000 + r.below(1 << 30);
+    let mut first_readings: Vec<u64> = vec![];
+    let mut tmax = t;
+    out.tallies.push(format!("shards={n}"));
+    let mut class = "-".to_string();
+    for life in 0..lifetimes {
+        if life > 0 {
+            // process kill once the WAL holds every acknowledged event, then a new process
+            let t0 = std::time::Instant::now();
+            while wal_rows(&root, n).len() < accepted.len() {
+                if t0.elapsed().as_millis() > 20000 {
+                    out.infra = Some("WAL did not drain within 20 s before the kill".into());
+                    return out;
+                }
+                std::thread::sleep(std::time::Duration::from_millis(5));
+            }
+            sess.kill();
+            sess = Session::start(&root, &cfg);
+            if sess.dead {
+                out.infra = Some("engine child did not restart".into());
+                return out;
+            }
+            optoks.push("R".into());
+            imps.push("R".into());
+            match r.below(3) {
+                0 => {
+                    t = tmax + 1 + r.below(5);
+                    out.tallies.push("clock after restart: later".into());
+                }
+                1 => {
+                    t = *r.pick(&first_readings);
+                    out.tallies.push("clock after restart: repeats a lifetime's first reading".into());
+                }
+                _ => {
+                    t = tmax - r.below(3);
+                    out.tallies.push("clock after restart: at or just before the last reading".into());
+                }
+            }
+        }
+        let stores = 1 + r.below(5);
+        for sidx in 0..stores {
+            if sidx > 0 {
+                t += *r.pick(&[0u64, 0, 1, 1, 3]);
+            } else {
+                first_readings.push(t);
+            }
+            tmax = tmax.max(t);
+            // the first STORE of a later lifetime often goes to the context of the very first STORE
+            let c = if sidx == 0 && life > 0 && r.chance(1, 2) { accepted.first().map(|x| x.0).unwrap_or(0) } else { r.below(nctx as u64) as usize };
+            key += 1;
+            let ctx = &ctxs[c];
+            if sess.ctl(json!({"ctl": "id_clock", "readings": [t]})).is_none() {
+                out.infra = Some("child died on id_clock".into());
+                return out;
+            }
+            let Some(rep) = sess.cmd(&format!("STORE ev FOR \"{ctx}\" PAYLOAD {{\"k\": {key}}}")) else {
+                out.infra = Some("child died on STORE".into());
+                return out;
+            };
+            if rep.status_class() != "ok" {
+                out.infra = Some(format!("STORE answered {}: {}", rep.status_class(), rep.raw));
+                return out;
+            }
+            // barrier: the shard answers this query after it has applied the STORE (FIFO channel)
+            if sess.cmd(&format!("QUERY ev FOR \"{ctx}\"")).is_none() {
+                out.infra = Some("child died on barrier query".into());
+                return out;
+            }
+            accepted.push((c, key, life));
+            out.stores_ok += 1;
+            optoks.push(format!("S:{}:{key}:{t}", hexs(ctx)));
+            imps.push("S=ok".into());
+        }
+        // wait for the WAL, then read placement and ids from the shard directories
+        let t0 = std::time::Instant::now();
+        let mut w;
+        loop {
+            w = wal_rows(&root, n);
+            if w.len() >= accepted.len() {
+                break;
+            }
+            if t0.elapsed().as_millis() > 20000 {
+                out.infra = Some(format!("WAL did not drain within 20 s ({} of {} lines)", w.len(), accepted.len()));
+                return out;
+            }
+            std::thread::sleep(std::time::Duration::from_millis(5));
+        }
+        let mut wl: Vec<(u64, u64, u64)> = w.iter().map(|x| (x.0, x.1, x.3)).collect();
+        wl.sort();
+        optoks.push("W".into());
+        imps.push(format!("W=[{}]", wl.iter().map(|(k, sh, id)| format!("{k}@{sh}#{id}")).collect::<Vec<_>>().join(",")));
+        let id_of: BTreeMap<u64, u64> = w.iter().map(|x| (x.0, x.3)).collect();
+        let life_of: BTreeMap<u64, usize> = accepted.iter().map(|x| (x.1, x.2)).collect();
+        for (k, sh, cc, id) in &w {
+            if *sh as usize != spec_route(cc, n) || tag_of(*id) as usize != spec_route(cc, n) {
+                out.fails.push(format!("WAL dirs: k={k} ctx={} id={id} lies in shard-{sh}, tag {}, hash%n = {}", hexs(cc), tag_of(*id), spec_route(cc, n)));
+            }
+        }
+        let dup_ids = {
+            let mut seen = BTreeSet::new();
+            w.iter().any(|x| !seen.insert(x.3))
+        };
+        if dup_ids {
+            out.tallies.push("history with two events carrying one id".into());
+        }
+        // reads: scoped for every context, then unscoped
+        let mut reads: Vec<(Option<usize>, String)> = (0..nctx).map(|c| (Some(c), format!("QUERY ev FOR \"{}\"", ctxs[c]))).collect();
+        reads.push((None, "QUERY ev".into()));
+        for (qc, text) in reads {
+            let Some(rep) = sess.cmd(&text) else {
+                out.infra = Some("child died on QUERY".into());
+                return out;
+            };
+            let Some(rows) = (if rep.ok() { rows_of(&rep) } else { None }) else {
+                out.infra = Some(format!("QUERY answered {}: {}", rep.status_class(), rep.raw));
+                return out;
+            };
+            let mut ids: Vec<u64> = rows.iter().map(|x| x.1).collect();
+            ids.sort();
+            let shown = format!("[{}]", ids.iter().map(|x| x.to_string()).collect::<Vec<_>>().join(","));
+            match qc {
+                Some(c) => {
+                    optoks.push(format!("Q:{}", hexs(&ctxs[c])));
+                    imps.push(format!("Q={shown}"));
+                }
+                None => {
+                    optoks.push("QA".into());
+                    imps.push(format!("QA={shown}"));
+                }
+            }
+            let mut want: Vec<u64> = accepted.iter().filter(|x| qc.is_none_or(|c| c == x.0)).map(|x| x.1).collect();
+            want.sort();
+            let mut got: Vec<u64> = rows.iter().map(|x| x.0).collect();
+            got.sort();
+            if want != got {
+                // class predicate: nothing foreign returned, and every missing event shares its id
+                // with a returned event that was stored in another lifetime
+                let extra = got.iter().any(|k| !want.contains(k));
+                let missing: Vec<u64> = want.iter().filter(|k| !got.contains(k)).cloned().collect();
+                let explained = !extra
+                    && missing.iter().all(|m| {
+                        got.iter().any(|g| id_of.get(g).is_some() && id_of.get(g) == id_of.get(m) && life_of.get(g) != life_of.get(m))
+                    });
+                if explained {
+                    class = "dup-id-after-restart".into();
+                } else {
+                    class = "-".into();
+                    out.fails.insert(0, "UNCLASSIFIED".into());
+                }
+                out.fails.push(format!(
+                    "{}: stored keys {want:?}, returned {got:?} (ids of the missing: {:?})",
+                    match qc { Some(c) => format!("FOR {}", hexs(&ctxs[c])), None => "unscoped".into() },
+                    missing.iter().map(|m| id_of.get(m).cloned().unwrap_or(0)).collect::<Vec<_>>()
+                ));
+            }
+        }
+    }
+    sess.kill();
+    if out.fails.iter().any(|f| f == "UNCLASSIFIED") || out.fails.iter().any(|f| f.starts_with("WAL dirs")) {
+        class = "-".into();
+    }
+    out.tallies.push(format!("class={class}"));
+    out.op = optoks.join(" ");
+    out.imp = imps.join(" ");
+    if out.fails.is_empty() {
+        let _ = std::fs::remove_dir_all(&root);
+    }
+    out
+}
+
+
+/// Minimal replay of `C12_scoped_complete_fails` on the real engine (not a check stream):
+/// `c12 witness --out DIR` prints what the engine answers.
+fn witness(a: &Args) {
+    let root = a.out.join("witness");
+    let _ = std::fs::remove_dir_all(&root);
+    let cfg = SysCfg { shards: 1, event_per_zone: 50, fill_factor: 4, ..Default::default() };
+    let t = EPOCH + 5;
+    let mut sess = Session::start(&root, &cfg);
+    sess.cmd("DEFINE ev FIELDS { k: \"int\" }").unwrap();
+    sess.ctl(json!({"ctl": "id_clock", "readings": [t]}));
+    println!("STORE k=1 -> {}", sess.cmd("STORE ev FOR c PAYLOAD {\"k\": 1}").unwrap().status_class());
+    let r1 = sess.cmd("QUERY ev FOR c").unwrap();
+    println!("QUERY ev FOR c -> {:?}", rows_of(&r1));
+    while wal_rows(&root, 1).len() < 1 {
+        std::thread::sleep(std::time::Duration::from_millis(5));
+    }
+    sess.kill();
+    let mut sess = Session::start(&root, &cfg);
+    println!("-- restart (new process on the same directories) --");
+    sess.ctl(json!({"ctl": "id_clock", "readings": [t]}));
+    println!("STORE k=2 -> {}", sess.cmd("STORE ev FOR c PAYLOAD {\"k\": 2}").unwrap().status_class());
+    let r2 = sess.cmd("QUERY ev FOR c").unwrap();
+    println!("QUERY ev FOR c -> {:?}", rows_of(&r2));
+    let r3 = sess.cmd("QUERY ev").unwrap();
+    println!("QUERY ev -> {:?}", rows_of(&r3));
+    std::thread::sleep(std::time::Duration::from_millis(100));
+    println!("WAL lines (key, shard, ctx, event_id): {:?}", wal_rows(&root, 1));
+    sess.kill();
+}
+
+
+/// One-off replay of `C12_tag_is_shard_fails` / `C12_unscoped_union_fails` (a) on the real
+/// engine: 1025 shards (start-up takes ~100 s: `Shard::spawn` sleeps 100 ms per shard).
+fn witness1025(a: &Args) {
+    let root = a.out.join("witness1025");
+    let _ = std::fs::remove_dir_all(&root);
+    let cfg = SysCfg { shards: 1025, event_per_zone: 50, fill_factor: 4, ..Default::default() };
+    let t = EPOCH + 5;
+    let mut sess = Session::start(&root, &cfg);
+    println!("started: dead={}", sess.dead);
+    println!("DEFINE -> {:?}", sess.cmd("DEFINE ev FIELDS { k: \"int\" }").map(|r| r.status_class()));
+    for c in ["695", "198"] {
+        println!("route {c} -> {:?}", sess.ctl(json!({"ctl": "route", "ctx": c})));
+    }
+    sess.ctl(json!({"ctl": "id_clock", "readings": [t]}));
+    println!("STORE 695 -> {:?}", sess.cmd("STORE ev FOR \"695\" PAYLOAD {\"k\": 1}").map(|r| r.status_class()));
+    println!("Q 695 -> {:?}", sess.cmd("QUERY ev FOR \"695\"").map(|r| rows_of(&r)));
+    sess.ctl(json!({"ctl": "id_clock", "readings": [t]}));
+    println!("STORE 198 -> {:?}", sess.cmd("STORE ev FOR \"198\" PAYLOAD {\"k\": 2}").map(|r| r.status_class()));
+    println!("Q 198 -> {:?}", sess.cmd("QUERY ev FOR \"198\"").map(|r| rows_of(&r)));
+    println!("QUERY ev -> {:?}", sess.cmd("QUERY ev").map(|r| rows_of(&r)));
+    std::thread::sleep(std::time::Duration::from_millis(200));
+    println!("WAL lines (key, shard, ctx, event_id): {:?}", wal_rows(&root, 1025));
+    sess.kill();
+}
+
+fn clock_stream(a: &Args) {
+    let mut s = Stream::create(&a.out, "clock");
+    let idxs: Vec<u64> = (0..a.cases).filter(|i| a.only.is_none_or(|o| o == *i)).collect();
+    let results: std::sync::Mutex<BTreeMap<u64, SysOutcome>> = std::sync::Mutex::new(BTreeMap::new());
+    let next = std::sync::atomic::AtomicUsize::new(0);
+    std::thread::scope(|sc| {
+        for _ in 0..6 {
+            sc.spawn(|| loop {
+                let p = next.fetch_add(1, std::sync::atomic::Ordering::SeqCst);
+                if p >= idxs.len() {
+                    break;
+                }
+                let o = run_clock_case(a, idxs[p]);
+                results.lock().unwrap().insert(idxs[p], o);
+            });
+        }
+    });
+    for (i, o) in results.into_inner().unwrap() {
+        if let Some(e) = o.infra {
+            eprintln!("clock case {i}: infrastructure: {e}");
+            std::process::exit(3);
+        }
+        let mut class = "-".to_string();
+        for t in &o.tallies {
+            if let Some(c) = t.strip_prefix("class=") {
+                class = c.to_string();
+            } else {
+                s.tally(t);
+            }
+        }
+        s.case(&o.op, &o.imp, o.stores_ok > 0);
+        if o.fails.is_empty() {
+            s.oracle_ok();
+        } else {
+            s.tally(&format!("oracle failure class {class}"));
+            s.oracle_fail(i, &class, &format!("{} :: history: {}", o.fails.join(" ;; "), o.op));
+        }
+    }
+    s.finish();
 }
 
 fn sys_stream(a: &Args) {
@@ -831,6 +1184,9 @@ fn main() {
     match a.stream.as_str() {
         "route" => route_stream(&a),
         "sys" => sys_stream(&a),
+        "clock" => clock_stream(&a),
+        "witness" => witness(&a),
+        "witness1025" => witness1025(&a),
         other => {
             eprintln!("unknown stream {other}");
             std::process::exit(2);
